@@ -112,6 +112,11 @@ pub struct TraitCase {
     /// matcher and answer function must see the arguments exactly as in a plain call
     #[serde(default)]
     pub from_unwinding_destructor: bool,
+    /// before the observed call another call on the same mock (a method of a second mocked trait that no clause
+    /// mentions) was rejected and that mock-induced panic was caught: the state it leaves behind must not change
+    /// how a later, valid call is forwarded
+    #[serde(default)]
+    pub prior_error: bool,
 }
 
 impl TraitCase {
@@ -121,6 +126,10 @@ impl TraitCase {
     pub fn has_default_body(&self) -> bool {
         // (provided methods with a Box<Self> receiver are not supported by the macro: calibrated on the unchanged tree)
         self.provided && self.api != Api::Hidden && self.asy != Asy::ImplFuture && self.recv != Recv::Boxed
+    }
+    /// (not for by-value receivers: their identity probe is `verify()`, which rightly fails after a recorded error)
+    pub fn has_prior_error(&self) -> bool {
+        self.prior_error && self.recv != Recv::Value
     }
     pub fn calls_while_unwinding(&self) -> bool {
         self.from_unwinding_destructor && self.asy == Asy::Sync && !self.calls_twice()
@@ -514,6 +523,9 @@ pub fn source(c: &TraitCase) -> String {
     } else {
         ""
     };
+    if c.has_prior_error() {
+        s.push_str("#[unimock(api=ZzMock)]\npub trait Zz {\n    fn zz(&self) -> u8;\n}\n\n");
+    }
     s.push_str(&format!(
         "#[unimock({attr})]\n{async_trait_attr}pub trait Tr{trait_generics}{sized} {{\n"
     ));
@@ -640,6 +652,9 @@ pub fn source(c: &TraitCase) -> String {
         s.push_str("    let mut u = Unimock::new(clause).no_verify_in_drop();\n");
     } else {
         s.push_str("    let mut u = Unimock::new_partial(()).no_verify_in_drop();\n");
+    }
+    if c.has_prior_error() {
+        s.push_str("    {\n        let prior = std::panic::catch_unwind(std::panic::AssertUnwindSafe(|| <Unimock as Zz>::zz(&u)));\n        assert!(prior.is_err(), \"HARNESS: zz() did not panic\");\n    }\n");
     }
     let method_targs = if c.method_generic() { "::<i64>" } else { "" };
     let call = |recv: &str| {
@@ -825,6 +840,7 @@ pub fn judge(c: &TraitCase, line: &str) -> Result<CaseInfo, String> {
         .class_if(c.calls_twice(), "ordered-clause-n_times(2)-called-twice")
         .class_if(c.has_default_body(), "provided-method(default-body-must-not-run)")
         .class_if(c.calls_while_unwinding(), "called-by-a-destructor-during-unwinding")
+        .class_if(c.has_prior_error(), "after-a-caught-mock-induced-panic-on-the-same-mock")
         .class_if(parts[3] == "0", "future-dropped-unpolled"))
 }
 
@@ -852,9 +868,9 @@ pub fn case_strategy() -> impl Strategy<Value = TraitCase> {
         0..3usize,
         0..3usize,
         any::<bool>(),
-        (any::<bool>(), proptest::bool::weighted(0.35), proptest::bool::weighted(0.3), proptest::bool::weighted(0.3)),
+        (any::<bool>(), proptest::bool::weighted(0.35), proptest::bool::weighted(0.3), proptest::bool::weighted(0.3), proptest::bool::weighted(0.3)),
     )
-        .prop_map(|(recv, mut params, ret_sel, mut asy, api, before, after, arc, (twin, ordered_twice, provided, from_unwinding_destructor))| {
+        .prop_map(|(recv, mut params, ret_sel, mut asy, api, before, after, arc, (twin, ordered_twice, provided, from_unwinding_destructor, prior_error))| {
             // at most one impl-Trait parameter (explicit type arguments cannot name further ones portably)
             let mut seen_impl = false;
             for p in params.iter_mut() {
@@ -919,11 +935,11 @@ pub fn case_strategy() -> impl Strategy<Value = TraitCase> {
                 // Rc<Self> futures are !Send; fine, but keep the grammar to what the macro documents
                 asy = Asy::Sync;
             }
-            TraitCase { recv, params, ret, asy, api, before, after, arc, twin, ordered_twice, provided, from_unwinding_destructor }
+            TraitCase { recv, params, ret, asy, api, before, after, arc, twin, ordered_twice, provided, from_unwinding_destructor, prior_error }
         })
 }
 
-pub const RULE: &str = "programs = generated #[unimock] traits: receiver {&self, &mut self, self, Rc<Self>, Arc<Self>, Pin<&mut Self>, Box<Self>} x 0-5 parameters from {u8, i32, &str, String, Vec<u8>, &u32, &[u8], &mut u32, &mut Vec<u8>, &mut &'static str, (u8,String), Option<&u32>, trait-level generic, method-level generic, impl Trait} with adjacent parameters often sharing a type x return {unit, u32, String, &u32 from self, &'a u32 from a parameter, generic} x {sync, async fn, -> impl Future} x api {module, flattened, hidden via unmock_with} x position of the method among 0-2 other methods; pairwise distinct argument values; the clause optionally ordered with n_times(2) and called twice, the method optionally a provided one, the (sync) call optionally made by a destructor while the thread unwinds from a caught user panic. Non-trivial = arity >= 2, or a &mut / generic / impl-Trait parameter, or a receiver other than &self, or async; distinct = distinct shape";
+pub const RULE: &str = "programs = generated #[unimock] traits: receiver {&self, &mut self, self, Rc<Self>, Arc<Self>, Pin<&mut Self>, Box<Self>} x 0-5 parameters from {u8, i32, &str, String, Vec<u8>, &u32, &[u8], &mut u32, &mut Vec<u8>, &mut &'static str, (u8,String), Option<&u32>, trait-level generic, method-level generic, impl Trait} with adjacent parameters often sharing a type x return {unit, u32, String, &u32 from self, &'a u32 from a parameter, generic} x {sync, async fn, -> impl Future} x api {module, flattened, hidden via unmock_with} x position of the method among 0-2 other methods; pairwise distinct argument values; the clause optionally ordered with n_times(2) and called twice, the method optionally a provided one, the (sync) call optionally made by a destructor while the thread unwinds from a caught user panic, optionally after a caught mock-induced panic on the same mock. Non-trivial = arity >= 2, or a &mut / generic / impl-Trait parameter, or a receiver other than &self, or async; distinct = distinct shape";
 
 fn spec<'a>() -> Spec<'a, TraitCase> {
     Spec {
